@@ -583,6 +583,8 @@ func init() {
 		streams: []*stream{
 			{name: "shapes", n: func(string) int { return majShapeCount() }, unit: 2800, run: c11Shapes, exhaustive: true,
 				note: "all outcome sequences of a one-criterion tournament, n<=7, x 5 policies x 3 currentChoice kinds"},
+			{name: "sampled-service", n: tierN(5000, 80000), unit: 2500, run: c11Sampled, service: true,
+				note: "the same generator and oracle as the stream named in front of the dash, but every request goes through decideHandler of main.go in-process (gin binding, the handler's own request object) after a history of 1..3 unrelated requests (accepted and rejected)"},
 			{name: "sampled", n: tierN(30000, 900000), unit: 3000, run: c11Sampled, floors: map[string]int64{"exact_reference": 10000, "existence_reference": 5000}},
 		},
 	})
@@ -594,6 +596,8 @@ func init() {
 			"order of tied weights / shuffled alternatives. Non-trivial = at least one elimination; distinct = (#entries, level source, (level,criterion) per entry).",
 		assumptions: []string{heurAssume},
 		streams: []*stream{
+			{name: "sampled-service", n: tierN(5000, 80000), unit: 2500, run: c12Sampled, service: true,
+				note: "the same generator and oracle as the stream named in front of the dash, but every request goes through decideHandler of main.go in-process (gin binding, the handler's own request object) after a history of 1..3 unrelated requests (accepted and rejected)"},
 			{name: "sampled", n: tierN(36000, 800000), unit: 3000, run: c12Sampled,
 				floors: map[string]int64{"exact_reference": 10000, "existence_reference": 3000, "two_failed_same_check": 500, "nobody_eliminated": 100}},
 		},
@@ -606,6 +610,8 @@ func init() {
 			"the current choice first otherwise. Non-trivial = >=2 entries; distinct = (level source, currentChoice kind, #levels, acceptance indices).",
 		assumptions: []string{heurAssume},
 		streams: []*stream{
+			{name: "sampled-service", n: tierN(5000, 80000), unit: 2500, run: c13Sampled, service: true,
+				note: "the same generator and oracle as the stream named in front of the dash, but every request goes through decideHandler of main.go in-process (gin binding, the handler's own request object) after a history of 1..3 unrelated requests (accepted and rejected)"},
 			{name: "sampled", n: tierN(36000, 800000), unit: 3000, run: c13Sampled,
 				floors: map[string]int64{"exact_reference": 10000, "existence_reference": 3000, "with_leftovers": 1000, "current_from_considered": 1000}},
 		},
